@@ -40,6 +40,14 @@ func (ex *Exec) doCall(fr *Frame, instr ssa.CallInstruction, c *ssa.CallCommon, 
 		if v.Clo != nil {
 			clo = v.Clo
 			callee = clo.Fn
+		} else if u := ex.g.uniqueCallee(fr.fn, instr); u != nil && u.Parent() != nil {
+			// a function value with exactly one possible target in the (VTA-refined) call
+			// graph, e.g. a function literal reached through a captured variable: its
+			// contract, if it has one, applies; without one the call is havoc'd as before
+			if fc := ex.g.cs.Funcs[fnID(u)]; fc != nil && !fc.Inline && (len(fc.Ensures) > 0 || len(fc.Requires) > 0) {
+				ex.assumed["call through a function value resolved by the call graph to its only target "+shortID(fnID(u))] = true
+				return ex.callContract(fr, instr, u, fc, c, ex.argTerms(fr, c), pc, st, resT)
+			}
 		}
 	} else if callee != nil {
 		if mc, ok := c.Value.(*ssa.MakeClosure); ok {
@@ -102,6 +110,8 @@ func (ex *Exec) doCall(fr *Frame, instr ssa.CallInstruction, c *ssa.CallCommon, 
 			}
 		}
 		if fc != nil && !fc.Inline && (len(fc.Ensures) > 0 || len(fc.Requires) > 0 || fc.Pure || fc.Trusted) {
+			ex.curClo = clo
+			defer func() { ex.curClo = nil }()
 			return ex.callContract(fr, instr, callee, fc, c, args, pc, st, resT)
 		}
 		if ex.shouldInline(fr, callee, fc, clo) {
@@ -423,6 +433,16 @@ func (ex *Exec) callContract(fr *Frame, instr ssa.CallInstruction, callee *ssa.F
 			fr2.params[p.Name()] = args[i]
 		}
 	}
+	if clo := ex.curClo; clo != nil && clo.Fn == callee {
+		// the callee's contract may name the variables it captured
+		for i, fv := range callee.FreeVars {
+			if i < len(clo.Bindings) {
+				fr2.vals[fv] = clo.Bindings[i]
+				fr2.addrs[fv] = clo.BindAddr[i]
+			}
+		}
+	}
+	ex.curClo = nil
 	short := shortID(fc.ID)
 	fr.callN[short]++
 	n := fr.callN[short]
@@ -438,6 +458,16 @@ func (ex *Exec) callContract(fr *Frame, instr ssa.CallInstruction, callee *ssa.F
 		ex.vc.oblige(o, pc, ex.vc.def("pre", goal))
 	}
 	pre := st
+	// ghost variables of the callee's contract: known by sort here, so that the frame havoc
+	// below gives them a fresh value the callee's ensures can constrain
+	for _, gs := range fc.Sites {
+		if gs.Kind == "ghost-after" {
+			k := "G|" + gs.C.Label
+			if _, known := ex.keySort[k]; !known {
+				ex.keySort[k] = Sort(gs.Why)
+			}
+		}
+	}
 	if !fc.Pure {
 		keys := ex.g.siteFrame(instr)
 		st = ex.havocKeys(st, keys, short)
@@ -1261,4 +1291,24 @@ func allocOrder(al *ssa.Alloc) int {
 		}
 	}
 	return n
+}
+
+// uniqueCallee: the only function the call graph allows at a call through a
+// function value, or nil.
+func (g *Global) uniqueCallee(fn *ssa.Function, instr ssa.CallInstruction) *ssa.Function {
+	node := g.cg.Nodes[fn]
+	if node == nil {
+		return nil
+	}
+	var found *ssa.Function
+	for _, e := range node.Out {
+		if e.Site != instr || e.Callee == nil || e.Callee.Func == nil {
+			continue
+		}
+		if found != nil && found != e.Callee.Func {
+			return nil
+		}
+		found = e.Callee.Func
+	}
+	return found
 }
